@@ -233,15 +233,17 @@ theorem unused_rule (ss : Session) :
 
 /-- **session_ends_once** (the "only" half): in any step from any state, a session that was alive
 before and is gone after ended for one of the listed reasons — its stream timeout fired; a TEARDOWN
-was answered 200 (without error); the client closed a connection, or the server closed one after an
-error response, and that connection was the session's only one at that moment (and the session was
+was answered 200 (without error); the client closed a connection (or made the server close it by
+sending something that is not a request), or the server closed one after an error response, and that
+connection was the session's only one at that moment (and the session was
 not streaming over UDP / multicast: `endsWhenUnused`, see `unused_rule`). -/
 theorem ends_only_for_a_reason (cfg : Config) (srv : Server) (e : Event) (id : Nat)
     (hid : id ∈ sessIds srv) (hgone : id ∉ sessIds (stepEv cfg srv e).1) :
     e = .expire id ∨
     (∃ c r res, e = .req c r ∧ (stepEv cfg srv e).2 = some res ∧ r.method = .teardown ∧
         res.status = 200 ∧ res.err ≠ .fail) ∨
-    (∃ c cn ss, e = .close c ∧ findConn srv c = some cn ∧ cn.sess = some id ∧ findSession srv id = some ss ∧
+    (∃ c cn ss, (e = .close c ∨ e = .frame c ∨ e = .response c) ∧ findConn srv c = some cn ∧ cn.sess = some id ∧
+        findSession srv id = some ss ∧
         (∀ x ∈ ss.conns, x = c) ∧ endsWhenUnused { ss with conns := ss.conns.erase c } = true) ∨
     (∃ c r res cn srv1 ss1, e = .req c r ∧ (stepEv cfg srv e).2 = some res ∧ res.err = .fail ∧
         findConn srv c = some cn ∧ srv1 = (connInner cfg srv cn r).1 ∧ findSession srv1 id = some ss1 ∧
